@@ -30,6 +30,13 @@ type gMachine struct {
 }
 type gFile struct {
 	Machines []gMachine `json:"machines"`
+	Tables   struct {
+		Powtab     []int `json:"powtab"`
+		Leftcheats []struct {
+			D int
+			C string
+		} `json:"leftcheats"`
+	} `json:"tables"`
 }
 
 type cfg struct {
